@@ -16,7 +16,7 @@ from ..ref import RefTransform, Weights
 
 LEVEL = "exploration"
 BATCH = 25
-FAMS = ["QP", "NLP", "NLP", "DEG", "INF", "UNB", "NCVX", "BAND"]
+FAMS = ["QP", "NLP", "NLP", "DEG", "INF", "UNB", "NCVX", "BAND", "INTQP"]
 
 
 def gen_cases(tier, seed):
@@ -81,7 +81,7 @@ def run_case(case):
         if fam == "BAND" and spec.n > 120:
             spec = make_spec(fam, gseed, n=int(rng.integers(50, 120)))
         fmt = str(rng.choice(["coo", "csr", "csc"]))
-        dup = bool(rng.random() < 0.35)
+        dup = int(rng.choice([0, 0, 1, 2]))
         sc = str(rng.choice(["none", "custom", "custom", "custom_extreme", "GradJac", "Nominal", "KKT"]))
         y0 = rng.normal(size=spec.m) if rng.random() < 0.7 else None
         spec.y0 = y0
@@ -93,8 +93,12 @@ def run_case(case):
             viol.append({"what": "%s: %s" % (comp, what), "key": kk,
                          "detail": dict(detail or {}, fam=fam, gseed=gseed, scaling=sc, fmt=fmt, dup=dup)})
 
-        prob = SpecProblem(spec, fmt=fmt, dup=dup)
+        # the problem handed to pygradflow may return cached objects (one constant object / memoised per point):
+        # the same object is then transformed again and again
+        policy = str(rng.choice(["fresh", "fresh", "const", "memo"]))
+        prob = SpecProblem(spec, fmt=fmt, dup=dup, policy=policy)
         prob2 = SpecProblem(spec, fmt=fmt, dup=dup)
+        bump("policy_" + policy)
         weights = None
         if sc in ("custom", "custom_extreme"):
             span = 40 if sc == "custom" else 500
@@ -118,7 +122,7 @@ def run_case(case):
         R = RefTransform(prob2, w)
         tp = T.trans_problem
         bump("scaling_" + sc)
-        bump("fmt_%s%s" % (fmt, "+dup" if dup else ""))
+        bump("fmt_%s%s" % (fmt, "+dup%d" % dup if dup else ""))
         fpe = False
         # ---- structure and bounds
         if tp.num_vars != R.n + R.ns or tp.num_cons != R.m:
@@ -247,7 +251,7 @@ def finalize(agg, tier):
                 "itself over- or underflowing (those are set aside and counted); distinct by (spec seed, scaling, format)",
         "floors": {"compared_cons": 500, "compared_cons_jac": 500, "compared_lag_hess": 1000,
                    "compared_initial_iterate": 500, "compared_restore": 500, "scaling_custom": 100,
-                   "scaling_GradJac": 50, "scaling_KKT": 50, "scaling_Nominal": 50, "points_with_pattern_switch": 300},
+                   "scaling_GradJac": 50, "scaling_KKT": 50, "scaling_Nominal": 50, "points_with_pattern_switch": 300, "policy_const": 200, "policy_memo": 200},
         "assumptions": ["bit-level oracle: ldexp by integer weights is exact absent over/underflow; cases where the "
                         "scaling over- or underflows are set aside per the statement ('absent overflow')"],
     }
